@@ -103,6 +103,11 @@ def _corpus_entry(job):
     if kind == "mutant":
         return (name, pid, kind, "caught" if nv else "MISSED", first["key"] if first else "")
     rules = sorted(set(v["rule"] for vs in r["violations"].values() for v in vs))
+    if kind == "review":
+        # a behaviour-preserving change that is reported BY DESIGN (re-implementation of a library call, numerical
+        # identity, value-dependent fast path, new interior mutability / call site): recorded so that the boundary of
+        # the approach is part of the corpus; becoming silent later is an improvement, not an error
+        return (name, pid, kind, "reported" if nv else "accepted", ",".join(rules))
     return (name, pid, kind, "silent" if not nv else "FALSE-ALARM", ",".join(rules))
 
 
